@@ -105,8 +105,13 @@ def check_classes(live, mm: MetaModel, decls: Optional[List[Decl]] = None) -> Ta
             res.fail("class-exists", f"table:{d.pyname}:exists", f"{d.origin}: no attrs class named {d.pyname} in lsprotocol.types", declaration=d.origin)
             continue
         fields = list(attrs.fields(cls))
-        s_over = getattr(_shook(conv, cls), "overrides", None) or {}
-        u_over = getattr(_uhook(conv, cls), "overrides", None) or {}
+        res.ob("class-hook")
+        try:
+            s_over = getattr(_shook(conv, cls), "overrides", None) or {}
+            u_over = getattr(_uhook(conv, cls), "overrides", None) or {}
+        except Exception as e:  # noqa  the converter cannot even build the class's (un)structure function
+            res.fail("class-hook", f"table:{d.pyname}:converter-hook", f"{d.origin}: the converter cannot build the structure / unstructure function of {d.pyname}: {type(e).__name__}: {str(e)[:200]}", declaration=d.origin, replay=f"get_converter().structure(<any value>, lsprotocol.types.{d.pyname})")
+            continue
         by_wire: Dict[str, Any] = {}
         for a in fields:
             res.ob("wire-name")
